@@ -699,7 +699,7 @@ func (hsServer) Gen(r *Rand, tier string, emit func(string)) {
 	// 5. oversized lines around the bufio buffer size and beyond
 	sizes := []int{4000, 4080, 4094, 4095, 4096, 4097, 4098, 8190, 8192, 8193, 65536}
 	if thorough {
-		sizes = append(sizes, 12288, 1<<20, 4<<20)
+		sizes = append(sizes, 12288, 262144, 1<<20)
 	} else {
 		sizes = append(sizes, 1<<20)
 	}
